@@ -141,7 +141,8 @@ def hugewal_case(async_):
     steps = [op]
     for i in range(135):
         steps.append({"op": "put", "k": i % 2, "v": u.next(), "pad": 1000000})
-    steps += [{"op": "getall", "k": 2}, {"op": "crashcheck", "k": 2}, {"op": "rotate"}, {"op": "barrier"},
+    # (with the asynchronous log the image of a kill right here may miss the buffered tail: only images taken after a rotation must be exact)
+    steps += [{"op": "getall", "k": 2}] + ([] if async_ else [{"op": "crashcheck", "k": 2}]) + [{"op": "rotate"}, {"op": "barrier"},
               {"op": "put", "k": 0, "v": u.next(), "pad": 10}, {"op": "del", "k": 1}, {"op": "rotate"}, {"op": "barrier"},
               {"op": "getall", "k": 2}, {"op": "crashcheck", "k": 2}, {"op": "close"}, dict(op), {"op": "getall", "k": 2}, {"op": "close"}]
     return steps
